@@ -264,10 +264,12 @@ func (p *nriPlugin) Synchronize(ctx context.Context, pods []*api.PodSandbox, con
 		p.dump(out, event, updates, retErr)
 	}()
 
+	m := p.resmgr
+
+	m.Lock()
+	defer m.Unlock()
 	b := metrics.Block()
 	defer b.Done()
-
-	m := p.resmgr
 
 	allocated, released, err := p.syncWithNRI(pods, containers)
 	if err != nil {
@@ -329,7 +331,8 @@ func (p *nriPlugin) StopPodSandbox(ctx context.Context, podSandbox *api.PodSandb
 
 	m := p.resmgr
 
-	// TODO(klihub): shouldn't we m.Lock()/defer m.Unlock() here?
+	m.Lock()
+	defer m.Unlock()
 	b := metrics.Block()
 	defer b.Done()
 
@@ -373,6 +376,11 @@ func (p *nriPlugin) RemovePodSandbox(ctx context.Context, podSandbox *api.PodSan
 
 	m := p.resmgr
 
+	m.Lock()
+	defer m.Unlock()
+	b := metrics.Block()
+	defer b.Done()
+
 	pod, ok := m.cache.LookupPod(podSandbox.GetId())
 	if !ok {
 		nri.Warn("%s: unknown pod %s, nothing to remove", event, podSandbox.GetId())
@@ -385,11 +393,6 @@ func (p *nriPlugin) RemovePodSandbox(ctx context.Context, podSandbox *api.PodSan
 		nri.Error("%s: failed to run post-release hooks for pod %s: %v",
 			event, pod.GetName(), err)
 	}
-
-	m.Lock()
-	defer m.Unlock()
-	b := metrics.Block()
-	defer b.Done()
 
 	m.cache.DeletePod(podSandbox.GetId())
 	return nil
